@@ -413,6 +413,16 @@ func (c C16) Run(t *tape.Tape, opt core.RunOpt) (res core.Result) {
 			}
 		}
 	}
+	// the same custom scalar declared twice (the library takes a repeated scalar
+	// declaration as one, in one document and across loads alike)
+	if !illFormed && t.Bool(1, 6) {
+		for _, f := range frags {
+			if f.spec != nil && f.spec.Kind == "scalar" && len(f.spec.DirUses) == 0 {
+				frags = append(frags, &c16Frag{name: "<scalar " + f.name + " declared again>", text: "scalar " + f.name + "\n"})
+				break
+			}
+		}
+	}
 	explicitExt := map[string]bool{} // types the definition set itself extends
 	// an input type gains a defaulted field through an extension that is part of
 	// the definition set (a split may deliver it in a later load than the
